@@ -30,39 +30,40 @@ type implQ struct {
 }
 
 type Engine struct {
-	opts          Options
-	Prog          *ssa.Program
-	Pkgs          []*packages.Package
-	SSAPkgs       []*ssa.Package
-	repoPkgs      map[*types.Package]bool
-	modPath       string
-	cfiles        []*CFile
-	funcC         map[*ssa.Function]*FuncC
-	funcCPkg      map[*FuncC]*types.Package
-	externs       map[string]*FuncC
-	externPkg     map[*FuncC]*types.Package
-	specs         map[string]*specInfo // pkgpath.name
-	lemmas        []*lemmaInfo
-	axioms        []*axiomInfo
-	nopanic       map[*ssa.Function][]string // function -> property tags
-	tags          map[string]int
-	tagTypes      []types.Type
-	funcIDs       map[string]int
-	implQueries   map[string]implQ
-	inlineOK      map[*ssa.Function]bool
-	closureFn     map[string]*ssa.Function
-	typeCache     map[string]types.Type
-	mutGlobals    map[string]bool
-	pureCache     map[*ssa.Function]bool
-	typeInvs      []*typeInvInfo
-	sumCache      map[*ssa.Function]*modSummary
-	unproved      map[string]bool
-	globalDynType map[string]types.Type
-	globalInit    map[string][]globalInitCell // constant field initialisers of struct globals // dynamic type of interface globals set once in init // obligations explicitly left unproved at enrolment (nil checks)
-	sumFrame      *frame
-	AllRepoPkgs   []*packages.Package
-	byName        map[string]*types.Package
-	Errors        []string
+	opts           Options
+	Prog           *ssa.Program
+	Pkgs           []*packages.Package
+	SSAPkgs        []*ssa.Package
+	repoPkgs       map[*types.Package]bool
+	modPath        string
+	cfiles         []*CFile
+	funcC          map[*ssa.Function]*FuncC
+	funcCPkg       map[*FuncC]*types.Package
+	externs        map[string]*FuncC
+	externPkg      map[*FuncC]*types.Package
+	specs          map[string]*specInfo // pkgpath.name
+	lemmas         []*lemmaInfo
+	axioms         []*axiomInfo
+	nopanic        map[*ssa.Function][]string // function -> property tags
+	tags           map[string]int
+	tagTypes       []types.Type
+	funcIDs        map[string]int
+	implQueries    map[string]implQ
+	inlineOK       map[*ssa.Function]bool
+	closureFn      map[string]*ssa.Function
+	typeCache      map[string]types.Type
+	mutGlobals     map[string]bool
+	pureCache      map[*ssa.Function]bool
+	typeInvs       []*typeInvInfo
+	sumCache       map[*ssa.Function]*modSummary
+	unproved       map[string]bool
+	globalDynType  map[string]types.Type
+	globalSliceLen map[string]int64            // length of slice globals initialised once from a composite literal
+	globalInit     map[string][]globalInitCell // constant field initialisers of struct globals // dynamic type of interface globals set once in init // obligations explicitly left unproved at enrolment (nil checks)
+	sumFrame       *frame
+	AllRepoPkgs    []*packages.Package
+	byName         map[string]*types.Package
+	Errors         []string
 }
 
 type typeInvInfo struct {
@@ -90,7 +91,7 @@ func NewEngine(opts Options, patterns []string) (*Engine, error) {
 	e := &Engine{opts: opts, repoPkgs: map[*types.Package]bool{}, funcC: map[*ssa.Function]*FuncC{}, funcCPkg: map[*FuncC]*types.Package{},
 		externs: map[string]*FuncC{}, externPkg: map[*FuncC]*types.Package{}, specs: map[string]*specInfo{}, nopanic: map[*ssa.Function][]string{},
 		tags: map[string]int{}, funcIDs: map[string]int{}, implQueries: map[string]implQ{}, inlineOK: map[*ssa.Function]bool{},
-		closureFn: map[string]*ssa.Function{}, typeCache: map[string]types.Type{}, mutGlobals: map[string]bool{}, pureCache: map[*ssa.Function]bool{}, sumCache: map[*ssa.Function]*modSummary{}, unproved: map[string]bool{}, globalDynType: map[string]types.Type{}, globalInit: map[string][]globalInitCell{}, byName: map[string]*types.Package{}}
+		closureFn: map[string]*ssa.Function{}, typeCache: map[string]types.Type{}, mutGlobals: map[string]bool{}, pureCache: map[*ssa.Function]bool{}, sumCache: map[*ssa.Function]*modSummary{}, unproved: map[string]bool{}, globalDynType: map[string]types.Type{}, globalInit: map[string][]globalInitCell{}, globalSliceLen: map[string]int64{}, byName: map[string]*types.Package{}}
 	cfg := &packages.Config{Mode: packages.LoadAllSyntax | packages.NeedModule, Dir: opts.RepoDir, BuildFlags: []string{"-tags=verif"},
 		Env: append(os.Environ(), "GOFLAGS=-mod=mod", "GOPROXY=off", "GOSUMDB=off", "GOTOOLCHAIN=local")}
 	pkgs, err := packages.Load(cfg, patterns...)
@@ -203,6 +204,16 @@ func (e *Engine) scanGlobalStores() {
 							if g, isG := root.(*ssa.Global); isG {
 								if cv, isC := s.Val.(*ssa.Const); isC {
 									e.globalInit[compGlobal(g)] = append(e.globalInit[compGlobal(g)], globalInitCell{idx, cv})
+								}
+							}
+						}
+						// G = new([N]T)[:] : a slice literal
+						if g, isG := s.Addr.(*ssa.Global); isG {
+							if sl, isSl := s.Val.(*ssa.Slice); isSl && sl.Low == nil && sl.High == nil {
+								if pt, ok := sl.X.Type().Underlying().(*types.Pointer); ok {
+									if at, ok := pt.Elem().Underlying().(*types.Array); ok {
+										e.globalSliceLen[compGlobal(g)] = at.Len()
+									}
 								}
 							}
 						}
@@ -888,6 +899,15 @@ func (e *Engine) finishVC(vc *VC, f *frame) {
 				vc.assert(fmt.Sprintf("(%s %d)", fn, i+1))
 			} else {
 				vc.assert(fmt.Sprintf("(not (%s %d))", fn, i+1))
+			}
+		}
+	}
+	// immutable slice globals initialised from a literal keep its length
+	for c, s := range vc.comps {
+		if strings.HasPrefix(c, "G:") && s == "Slice" && !e.mutGlobals[c] {
+			if n, ok := e.globalSliceLen[c]; ok && vc.declSeen[q(c+"@e0")] {
+				vc.assert(fmt.Sprintf("(= (s_len %s) %d)", q(c+"@e0"), n))
+				vc.note("assumed: package-level variables never assigned outside init keep their initial value")
 			}
 		}
 	}
